@@ -1872,14 +1872,13 @@ where
         }
       },
       ControlOperator::AND => {
-        self.state.ctrl = Some(ctrl);
+        // both operands are ordinary types the value has to match; no
+        // operator is in effect while they are visited
         self.visit_type2(target)?;
         self.visit_type2(controller)?;
-        self.state.ctrl = None;
         Ok(())
       }
       ControlOperator::WITHIN => {
-        self.state.ctrl = Some(ctrl);
         let error_count = self.errors.len();
         self.visit_type2(target)?;
         let no_errors = self.errors.len() == error_count;
@@ -1894,8 +1893,6 @@ where
             target, controller, self.cbor,
           ));
         }
-
-        self.state.ctrl = None;
 
         Ok(())
       }
